@@ -4,7 +4,11 @@ Streams (see RULE):
   (a) key-collision pattern of `cached_fuse_block_info` keys over near-identical families;
   (b) results under cold / warm / evicting caches, SYMMRAY_FUSE_CACHE_MAXSIZE in subprocesses,
       for every ordering of <= 4 calls; cache contents order against the Lean cache model;
-  (c) nested `default_tensordot_mode` blocks with raising bodies against `ModeCtx`;
+  (c) nested `default_tensordot_mode` blocks with raising bodies against `ModeCtx`, including
+      context managers created before they are entered (in any order relative to other
+      entries / exits / set_default_tensordot_mode calls, nested, with raising bodies) and the
+      decorator form; translated for the model as `with <mode>` at the point of ENTRY.  The clean
+      library's context managers are one-shot, so re-entering one instance is not exercised;
   (d) thread stress against sequential results;
   (e) forced thread schedules (scheduling dictionary) against the Lean thread machine;
   (f) lru_cache'd pure helpers against their un-memoised functions;
@@ -78,7 +82,9 @@ RULE = (
     "sector order, symmetry, groups, sub-index dualness / tables / order / extents under an identical "
     "fused table — for a leg fused once and for a leg fused twice, where the members agree on the "
     "first-level sub-index tables and extents and differ only at the second level —, arrays derived "
-    "by conj from already-hashed ones); every ordering of <= 4 cached "
+    "by conj from already-hashed ones; generic-class twins: sr.AbelianArray / sr.FermionicArray built "
+    "with symmetry Z2 / Z4 / U1 (Z2Z2 / U1U1) given as a name and as an object over identical index "
+    "tables, dualnesses, stored sector lists and groups); every ordering of <= 4 cached "
     "calls over a family under SYMMRAY_FUSE_CACHE_MAXSIZE in {0,1,2,8192} (subprocesses); random "
     "mixed fuse/tensordot(fused)/reshape/unfuse(all levels) histories; forced schedules of 2-4 threads over "
     "the five atomic dict operations; single pre-emptions of one thread before each line event of a "
@@ -158,6 +164,12 @@ def build_raw(desc):
             n *= d
         blocks[sec] = np.array([rng.randint(-3, 3) or 1 for _ in range(n)], dtype="float64").reshape(shape)
     cls, kw = gen.array_class(sym, desc.get("fermi", False), desc.get("static", True))
+    if desc.get("symobj"):
+        # generic class with the symmetry given as an object instead of its name
+        from symmray.symmetries import get_symmetry
+
+        cls = sr.FermionicArray if desc.get("fermi") else sr.AbelianArray
+        kw["symmetry"] = get_symmetry(sym)
     if desc.get("fermi") and gen.py_parity(sym, _tup(desc["charge"])):
         kw["oddpos"] = 7
     return cls(indices=indices, charge=_tup(desc["charge"]), blocks=blocks, **kw)
@@ -348,6 +360,71 @@ def family_of(rng, base):
     return fam
 
 
+def twin_family(rng, pair, fermi):
+    """generic-class twins: `sr.AbelianArray` / `sr.FermionicArray` built with different
+    symmetries (given as a name and as an object) on identical index tables, dualnesses, stored
+    sector lists and groups.  The stored sectors are valid under every symmetry of the pool
+    (charges are conserved without wrap-around), so some sectors that are valid only modulo 2 or 4
+    are simply absent; the fused group mixes directions, so the fused charges differ between the
+    symmetries (Z2: 1, Z4: 3, U1: -1 for a sub-sector (0, 1))."""
+    from .. import gen
+
+    syms = ["Z2", "Z4", "U1"] if pair == "scalar" else ["Z2Z2", "U1U1"]
+    strict = "U1" if pair == "scalar" else "U1U1"
+    labels = [0, 1] if pair == "scalar" else [(0, 0), (0, 1), (1, 0), (1, 1)]
+    for _ in range(500):
+        ndim = 3
+        indices = []
+        for _k in range(ndim):
+            cs = sorted(rng.sample(labels, 2)) if pair != "scalar" else [0, 1]
+            indices.append(dict(cm=[[_jc(c), rng.randint(1, 3)] for c in cs], dual=rng.random() < 0.5))
+        a, b = rng.sample(range(ndim), 2)
+        indices[b]["dual"] = not indices[a]["dual"]  # the fused pair mixes directions
+        sector = tuple(_tup(rng.choice(ix["cm"])[0]) for ix in indices)
+        charge = gen.py_sector_charge(strict, sector, [ix["dual"] for ix in indices])
+        if pair == "scalar" and charge not in (0, 1):
+            continue
+        if pair != "scalar" and not all(c in (0, 1) for c in charge):
+            continue
+        secs = _valid_sectors(strict, indices, charge)
+        if len(secs) >= 3:
+            break
+    else:
+        raise RuntimeError("no twin base found")
+    secs = [[_jc(c) for c in s_] for s_ in secs]
+    rng.shuffle(secs)
+    base = dict(sym=syms[0], indices=indices, charge=_jc(charge), sectors=secs, groups=[[a, b]],
+                prefuse=None, prefuse2=None, sort_blocks=False, derive=None, seed=rng.randrange(10**6),
+                fermi=fermi, static=False, symobj=False, tag="base")
+    fam = [base]
+
+    def variant(tag, **kw):
+        d = copy.deepcopy(base)
+        d["tag"] = tag
+        d.update(kw)
+        fam.append(d)
+        return d
+
+    variant("dup")
+    for sy in syms[1:]:
+        variant(f"sym:{sy}", sym=sy)
+    for sy in syms:
+        variant(f"symobj:{sy}", sym=sy, symobj=True)
+    d = variant("groups")
+    d["groups"] = [[b, a]]
+    for sy in syms[1:]:
+        d = variant(f"groups+sym:{sy}", sym=sy)
+        d["groups"] = [[b, a]]
+    # (the schedule streams want these two tags in every family)
+    d = variant("size@0")
+    d["indices"][0]["cm"][0][1] += 1
+    d = variant("missing#0")
+    del d["sectors"][0]
+    d = variant(f"missing#0+sym:{syms[-1]}", sym=syms[-1])
+    del d["sectors"][0]
+    return fam
+
+
 def make_families(rng, tier):
     fams = []
     # last entry: 0 plain, 1 first index fused once, 2 fused twice (then the sub-index variants
@@ -361,6 +438,14 @@ def make_families(rng, tier):
         plan.append(rng.choice([("Z2Z2", 3, False, False), ("Z2", 3, True, False), ("U1", 4, False, True)]))
     for sym, ndim, fermi, prefuse in plan:
         fams.append(family_of(rng, rand_base(rng, sym, ndim, fermi, prefuse)))
+    # generic-class twins (symmetry is an argument of the constructor, not a property of the class)
+    twins = [("scalar", False)]
+    if tier == "thorough":
+        twins += [("scalar", True), ("pair", False), ("pair", True)]
+    else:
+        twins.append(rng.choice([("scalar", True), ("pair", False)]))
+    for pair, fermi in twins:
+        fams.append(twin_family(rng, pair, fermi))
     return fams
 
 
@@ -1293,6 +1378,87 @@ def rand_mode_prog(rng, depth=0):
     return acts
 
 
+def rand_mode_prog2(rng, st=None, depth=0, in_deco=False):
+    """mode programs with context managers that are *created before they are entered*
+    ({"make": name, "mode": m} ... {"enter": name, "body": [...]}) and decorated functions
+    ({"mkdeco": name, "mode": m, "body": [...]} ... {"call": name}).  No dead code: a block ends
+    with its first action that may raise, so every `make` is executed before its `enter`.
+    Returns (actions, may_raise)."""
+    modes = ["auto", "fused", "blockwise", None]
+    if st is None:
+        st = dict(n=0, made=[], decos=[])
+    acts = []
+    for _ in range(rng.randint(2, 5)):
+        r = rng.random()
+        if r < 0.15:
+            acts.append("get")
+        elif r < 0.30:
+            acts.append({"set": rng.choice(modes)})
+        elif r < 0.50 and not in_deco:
+            st["n"] += 1
+            name = f"cm{st['n']}"
+            acts.append({"make": name, "mode": rng.choice(modes)})
+            st["made"].append(name)
+        elif r < 0.58 and not in_deco and depth < 2:
+            st["n"] += 1
+            name = f"fn{st['n']}"
+            body, mr = rand_mode_prog2(rng, st, depth + 1, True)
+            acts.append({"mkdeco": name, "mode": rng.choice(modes), "body": body + ([] if mr else ["get"])})
+            st["decos"].append((name, mr))
+        elif r < 0.75 and st["made"] and not in_deco and depth < 3:
+            name = st["made"].pop(rng.randrange(len(st["made"])))
+            body, mr = rand_mode_prog2(rng, st, depth + 1, in_deco)
+            acts.append({"enter": name, "body": body + ([] if mr else ["get"])})
+            if mr:
+                return acts, True
+        elif r < 0.82 and st["decos"] and not in_deco:
+            name, mr = rng.choice(st["decos"])
+            acts.append({"call": name})
+            if mr:
+                return acts, True
+        elif r < 0.88 and depth < 3:
+            body, mr = rand_mode_prog2(rng, st, depth + 1, in_deco)
+            acts.append({"with": rng.choice(modes), "body": body + ([] if mr else ["get"])})
+            if mr:
+                return acts, True
+        elif r < 0.94 and depth < 3:
+            body, _ = rand_mode_prog2(rng, st, depth + 1, in_deco)
+            acts.append({"try": body})
+        elif depth > 0:
+            acts.append("raise")
+            return acts, True
+        else:
+            acts.append("get")
+    return acts, False
+
+
+def translate_mode_prog(prog, env=None):
+    """the same program in the language of the Lean model: creating a context manager does
+    nothing; entering it later is `with <its mode>`; calling a decorated function is
+    `with <its mode>: <its body>` (the mode restored at exit is the mode at ENTRY)"""
+    env = env if env is not None else dict(cms={}, decos={})
+    out = []
+    for a in prog:
+        if not isinstance(a, dict):
+            out.append(a)
+        elif "make" in a:
+            env["cms"][a["make"]] = a["mode"]
+        elif "mkdeco" in a:
+            env["decos"][a["mkdeco"]] = (a["mode"], translate_mode_prog(a["body"], env))
+        elif "enter" in a:
+            out.append({"with": env["cms"][a["enter"]], "body": translate_mode_prog(a["body"], env)})
+        elif "call" in a:
+            m, body = env["decos"][a["call"]]
+            out.append({"with": m, "body": body})
+        elif "with" in a:
+            out.append({"with": a["with"], "body": translate_mode_prog(a["body"], env)})
+        elif "try" in a:
+            out.append({"try": translate_mode_prog(a["try"], env)})
+        else:
+            out.append(a)
+    return out
+
+
 class _Boom(Exception):
     pass
 
@@ -1305,6 +1471,8 @@ def run_mode_prog(init, prog):
 
     trace = []
     oracle = []
+    cms = {}
+    decos = {}
     ac._DEFAULT_TENSORDOT_MODE = init
 
     def ex(act):
@@ -1320,6 +1488,43 @@ def run_mode_prog(init, prog):
                 oracle.append(f"set_default_tensordot_mode(None) changed {before!r} to {after!r}")
             if act["set"] is not None and after != act["set"]:
                 oracle.append(f"set_default_tensordot_mode({act['set']!r}) left {after!r}")
+        elif "make" in act:
+            before = sr.get_default_tensordot_mode()
+            cms[act["make"]] = (sr.default_tensordot_mode(act["mode"]), act["mode"])
+            after = sr.get_default_tensordot_mode()
+            if after != before:
+                oracle.append(f"creating default_tensordot_mode({act['mode']!r}) changed the mode to {after!r}")
+        elif "mkdeco" in act:
+            body = act["body"]
+
+            @sr.default_tensordot_mode(act["mode"])
+            def fn(_body=body, _mode=act["mode"]):
+                inside = sr.get_default_tensordot_mode()
+                if inside != _mode:
+                    oracle.append(f"inside a function decorated with default_tensordot_mode({_mode!r}) "
+                                  f"the mode is {inside!r}")
+                for a in _body:
+                    ex(a)
+
+            decos[act["mkdeco"]] = fn
+        elif "enter" in act or "call" in act:
+            before = sr.get_default_tensordot_mode()
+            try:
+                if "call" in act:
+                    decos[act["call"]]()
+                else:
+                    cm, mode = cms.pop(act["enter"])
+                    with cm:
+                        inside = sr.get_default_tensordot_mode()
+                        if inside != mode:
+                            oracle.append(f"inside a pre-built default_tensordot_mode({mode!r}) the mode is {inside!r}")
+                        for a in act["body"]:
+                            ex(a)
+            finally:
+                after = sr.get_default_tensordot_mode()
+                if after != before:
+                    how = "decorated call" if "call" in act else "pre-built context manager (created earlier, entered now)"
+                    oracle.append(f"{how}: mode {before!r} at entry, {after!r} after exit")
         elif "with" in act:
             before = sr.get_default_tensordot_mode()
             try:
@@ -1358,7 +1563,7 @@ def _has_raise_in_with(prog, inside=False):
         if a == "raise" and inside:
             return True
         if isinstance(a, dict):
-            if "with" in a and _has_raise_in_with(a["body"], True):
+            if ("with" in a or "enter" in a or "mkdeco" in a) and _has_raise_in_with(a["body"], True):
                 return True
             if "try" in a and _has_raise_in_with(a["try"], inside):
                 return True
@@ -1515,7 +1720,7 @@ def _run(ctx):
     mkeys = stream_keys(ctx, families)
 
     # ---- (c) mode context
-    stream_modes(ctx, rng, 300 if tier == "quick" else 5000)
+    stream_modes(ctx, rng, 400 if tier == "quick" else 5000)
 
     # ---- collect
     while pending or running:
@@ -1567,17 +1772,37 @@ def _run(ctx):
                           dict(maxsize=m, **b), triggers={"lru_cache"}, op=b["fn"])
 
 
+def _flatten(prog):
+    for a in prog:
+        yield a
+        if isinstance(a, dict):
+            for key in ("body", "try"):
+                if isinstance(a.get(key), list):
+                    yield from _flatten(a[key])
+
+
 def stream_modes(ctx, rng, n):
     cases = []
     progs = []
     for k in range(n):
         init = rng.choice(["auto", "fused", "blockwise"])
-        prog = rand_mode_prog(rng)
-        # keep most raising blocks inside a try so that the program goes on and observes the mode
-        prog = [{"try": [a]} if isinstance(a, dict) and "with" in a and rng.random() < 0.8 else a for a in prog]
-        prog.append("get")
+        if k % 2 == 0:
+            prog = rand_mode_prog(rng)
+            # keep most raising blocks inside a try so that the program goes on and observes the mode
+            prog = [{"try": [a]} if isinstance(a, dict) and "with" in a and rng.random() < 0.8 else a for a in prog]
+            prog.append("get")
+        else:
+            # context managers / decorated functions created ahead of their use: a few blocks, each
+            # inside a try so that the program goes on after an exception and observes the mode
+            st = dict(n=0, made=[], decos=[])
+            prog = []
+            for _ in range(rng.randint(2, 4)):
+                body, mr = rand_mode_prog2(rng, st, 1 if rng.random() < 0.7 else 0)
+                prog.extend([{"try": body}, "get"] if mr or rng.random() < 0.5 else body + ["get"])
+            if any(isinstance(a, dict) and ("enter" in a or "call" in a) for a in _flatten(prog)):
+                ctx.stat("c.programs_with_prebuilt_managers")
         progs.append((init, prog))
-        cases.append(dict(id=f"m{k}", kind="modeCtx", init=init, prog=prog))
+        cases.append(dict(id=f"m{k}", kind="modeCtx", init=init, prog=translate_mode_prog(prog)))
     model = ctx.model(cases)
     for k, (init, prog) in enumerate(progs):
         ctx.evaluations += 1
